@@ -10,6 +10,7 @@ import (
 	"verif/checks/c10"
 	"verif/checks/c12"
 	"verif/checks/c13"
+	"verif/checks/c18"
 	"verif/checks/c20"
 	"verif/engine/ev"
 )
@@ -24,6 +25,7 @@ func main() {
 		"C10": c10.Check,
 		"C12": c12.Check,
 		"C13": c13.Check,
+		"C18": c18.Check,
 		"C20": c20.Check,
 	})
 }
